@@ -168,7 +168,8 @@ func (e *fnEnc) bumpClock() {
 
 func (e *fnEnc) alloc(i *ssa.Alloc) {
 	n := e.freshRef(i)
-	if !i.Heap {
+	if !i.Heap || onlyDeferredClosures(i) {
+		// no callee can reach this cell: it is local, or shared only with closures that run at function exit
 		e.localAllocs = append(e.localAllocs, n)
 	}
 	T := i.Type().Underlying().(*types.Pointer).Elem()
@@ -533,6 +534,10 @@ func (e *fnEnc) unop(i *ssa.UnOp) {
 		e.setVal(i, t)
 		e.vc.assume(e.typeFacts(e.val[i], T, 2))
 		e.assumeLoadedInv(e.val[i], T)
+		if g, ok := i.X.(*ssa.Global); ok && e.vc.P.NonNilGlobals[g] {
+			// assigned a fresh object in the package initialiser and never stored to again (scan of every store)
+			e.vc.assume(fmt.Sprintf("(not (= %s 0))", e.val[i]))
+		}
 	case token.NOT:
 		e.setVal(i, sNot(e.term(i.X)))
 	case token.SUB:
@@ -1093,4 +1098,38 @@ func (e *fnEnc) assumeLoadedInv(t string, T types.Type) {
 	for _, f := range e.typeInvFormulas(t, T, e.cur) {
 		e.vc.assume(sImp(e.guard(), f.f))
 	}
+}
+
+// onlyDeferredClosures: the cell escapes only into closures, and those closures are only deferred.
+func onlyDeferredClosures(a *ssa.Alloc) bool {
+	refs := a.Referrers()
+	if refs == nil {
+		return false
+	}
+	sawClosure := false
+	for _, r := range *refs {
+		switch x := r.(type) {
+		case *ssa.Store:
+			if x.Val == ssa.Value(a) {
+				return false // the address itself is stored somewhere
+			}
+		case *ssa.UnOp, *ssa.FieldAddr, *ssa.IndexAddr, *ssa.DebugRef:
+		case *ssa.MakeClosure:
+			sawClosure = true
+			crefs := x.Referrers()
+			if crefs == nil {
+				return false
+			}
+			for _, cr := range *crefs {
+				switch cr.(type) {
+				case *ssa.Defer, *ssa.DebugRef:
+				default:
+					return false
+				}
+			}
+		default:
+			return false
+		}
+	}
+	return sawClosure
 }
